@@ -911,7 +911,7 @@ func TestC17(t *testing.T) {
 			"a fresh metadata generation must get an epoch different from every earlier one on that channel (8 random letters: a collision is negligible)",
 			"testing/synctest virtual time replaces the injectable clock the property's hook_needed field asks for; the broker's three sweep goroutines end on MemoryBroker.Close",
 		},
-		Cases:           map[string]int{"quick": 2400, "thorough": 24000},
+		Cases:           map[string]int{"quick": 1600, "thorough": 24000},
 		RequireCounters: []string{"ttl_expiry_crossed", "meta_expired_new_epoch", "read_within_2s_before_ttl_deadline", "trimmed_by_size", "removed_stream_keeps_position", "since_reads", "reverse_reads", "limit_cut_reads", "publish_without_history", "porcupine_histories", "overlapping_operation_pairs"},
 		Setup:           startLinWorker,
 		Run: func(c *kit.Case) {
